@@ -886,7 +886,35 @@ func (a *fnA) seedPhiCandidates() {
 				s := s
 				db := defBlock(s)
 				if db != nil && !(db.Dominates(b)) {
-					continue
+					// a slice expression made in a branch (data[pos:] written out in
+					// each arm) still has a length in terms of values that dominate
+					// the join: len(data) - pos
+					usable := false
+					fromCallOn := false
+					for _, e := range phi.Edges {
+						if ex, ok := e.(*ssa.Extract); ok {
+							if call, ok := ex.Tuple.(*ssa.Call); ok {
+								for _, arg := range call.Common().Args {
+									if arg == s {
+										fromCallOn = true
+									}
+								}
+							}
+						}
+					}
+					if _, isSlice := s.(*ssa.Slice); isSlice && fromCallOn {
+						usable = true
+						for t := range a.lenOf(s).C {
+							if v := a.terms[t].v; v != nil {
+								if in, isInstr := v.(ssa.Instruction); isInstr && in.Block() != nil && !(in.Block() == b || in.Block().Dominates(b)) {
+									usable = false
+								}
+							}
+						}
+					}
+					if !usable {
+						continue
+					}
 				}
 				add(fmt.Sprintf("%s <= len(%s)", a.describe(phi), a.describe(s)), func() (Ineq, bool) { return leq(pt(), a.lenOf(s)) })
 			}
